@@ -25,6 +25,9 @@ Gen/Streamtabs.vos Gen/Streamtabs.vok Gen/Streamtabs.required_vos: Gen/Streamtab
 Model/Adapters.vo Model/Adapters.glob Model/Adapters.v.beautified Model/Adapters.required_vo: Model/Adapters.v Lib/Base.vo Lib/Sort.vo Gen/Bytest.vo
 Model/Adapters.vio: Model/Adapters.v Lib/Base.vio Lib/Sort.vio Gen/Bytest.vio
 Model/Adapters.vos Model/Adapters.vok Model/Adapters.required_vos: Model/Adapters.v Lib/Base.vos Lib/Sort.vos Gen/Bytest.vos
+Model/AsyncRun.vo Model/AsyncRun.glob Model/AsyncRun.v.beautified Model/AsyncRun.required_vo: Model/AsyncRun.v Lib/Base.vo Gen/Spinnertabs.vo
+Model/AsyncRun.vio: Model/AsyncRun.v Lib/Base.vio Gen/Spinnertabs.vio
+Model/AsyncRun.vos Model/AsyncRun.vok Model/AsyncRun.required_vos: Model/AsyncRun.v Lib/Base.vos Gen/Spinnertabs.vos
 Model/Content.vo Model/Content.glob Model/Content.v.beautified Model/Content.required_vo: Model/Content.v Lib/Base.vo Model/Utf8.vo Model/MimeCt.vo Gen/Ctc16.vo
 Model/Content.vio: Model/Content.v Lib/Base.vio Model/Utf8.vio Model/MimeCt.vio Gen/Ctc16.vio
 Model/Content.vos Model/Content.vok Model/Content.required_vos: Model/Content.v Lib/Base.vos Model/Utf8.vos Model/MimeCt.vos Gen/Ctc16.vos
@@ -52,6 +55,9 @@ Model/Run.vos Model/Run.vok Model/Run.required_vos: Model/Run.v Lib/Base.vos Gen
 Model/Spinner.vo Model/Spinner.glob Model/Spinner.v.beautified Model/Spinner.required_vo: Model/Spinner.v Lib/Base.vo Model/Reactor.vo Gen/Spinnertabs.vo
 Model/Spinner.vio: Model/Spinner.v Lib/Base.vio Model/Reactor.vio Gen/Spinnertabs.vio
 Model/Spinner.vos Model/Spinner.vok Model/Spinner.required_vos: Model/Spinner.v Lib/Base.vos Model/Reactor.vos Gen/Spinnertabs.vos
+Model/StreamDecor.vo Model/StreamDecor.glob Model/StreamDecor.v.beautified Model/StreamDecor.required_vo: Model/StreamDecor.v Lib/Base.vo Model/Router.vo
+Model/StreamDecor.vio: Model/StreamDecor.v Lib/Base.vio Model/Router.vio
+Model/StreamDecor.vos Model/StreamDecor.vok Model/StreamDecor.required_vos: Model/StreamDecor.v Lib/Base.vos Model/Router.vos
 Model/StreamRec.vo Model/StreamRec.glob Model/StreamRec.v.beautified Model/StreamRec.required_vo: Model/StreamRec.v Lib/Base.vo Lib/Bytestr.vo Gen/Streamtabs.vo
 Model/StreamRec.vio: Model/StreamRec.v Lib/Base.vio Lib/Bytestr.vio Gen/Streamtabs.vio
 Model/StreamRec.vos Model/StreamRec.vok Model/StreamRec.required_vos: Model/StreamRec.v Lib/Base.vos Lib/Bytestr.vos Gen/Streamtabs.vos
@@ -157,9 +163,15 @@ Proof/C02.vos Proof/C02.vok Proof/C02.required_vos: Proof/C02.v Lib/Base.vos Gen
 Proof/C03.vo Proof/C03.glob Proof/C03.v.beautified Proof/C03.required_vo: Proof/C03.v Lib/Base.vo Gen/Handlers.vo Model/Run.vo Spec/Run.vo Spec/C03.vo Corr/C03.vo
 Proof/C03.vio: Proof/C03.v Lib/Base.vio Gen/Handlers.vio Model/Run.vio Spec/Run.vio Spec/C03.vio Corr/C03.vio
 Proof/C03.vos Proof/C03.vok Proof/C03.required_vos: Proof/C03.v Lib/Base.vos Gen/Handlers.vos Model/Run.vos Spec/Run.vos Spec/C03.vos Corr/C03.vos
-Proof/C08.vo Proof/C08.glob Proof/C08.v.beautified Proof/C08.required_vo: Proof/C08.v Lib/Base.vo Model/Adapters.vo Spec/C08.vo Corr/C08.vo
-Proof/C08.vio: Proof/C08.v Lib/Base.vio Model/Adapters.vio Spec/C08.vio Corr/C08.vio
-Proof/C08.vos Proof/C08.vok Proof/C08.required_vos: Proof/C08.v Lib/Base.vos Model/Adapters.vos Spec/C08.vos Corr/C08.vos
+Proof/C06.vo Proof/C06.glob Proof/C06.v.beautified Proof/C06.required_vo: Proof/C06.v Lib/Base.vo Model/Matchers.vo Spec/C06.vo Corr/C06.vo
+Proof/C06.vio: Proof/C06.v Lib/Base.vio Model/Matchers.vio Spec/C06.vio Corr/C06.vio
+Proof/C06.vos Proof/C06.vok Proof/C06.required_vos: Proof/C06.v Lib/Base.vos Model/Matchers.vos Spec/C06.vos Corr/C06.vos
+Proof/C06Setwise.vo Proof/C06Setwise.glob Proof/C06Setwise.v.beautified Proof/C06Setwise.required_vo: Proof/C06Setwise.v Lib/Base.vo Model/Matchers.vo Spec/C06.vo
+Proof/C06Setwise.vio: Proof/C06Setwise.v Lib/Base.vio Model/Matchers.vio Spec/C06.vio
+Proof/C06Setwise.vos Proof/C06Setwise.vok Proof/C06Setwise.required_vos: Proof/C06Setwise.v Lib/Base.vos Model/Matchers.vos Spec/C06.vos
+Proof/C08.vo Proof/C08.glob Proof/C08.v.beautified Proof/C08.required_vo: Proof/C08.v Lib/Base.vo Lib/Sort.vo Model/Adapters.vo Spec/C08.vo Corr/C08.vo
+Proof/C08.vio: Proof/C08.v Lib/Base.vio Lib/Sort.vio Model/Adapters.vio Spec/C08.vio Corr/C08.vio
+Proof/C08.vos Proof/C08.vok Proof/C08.required_vos: Proof/C08.v Lib/Base.vos Lib/Sort.vos Model/Adapters.vos Spec/C08.vos Corr/C08.vos
 Proof/C10.vo Proof/C10.glob Proof/C10.v.beautified Proof/C10.required_vo: Proof/C10.v Lib/Base.vo Lib/Bytestr.vo Gen/Streamtabs.vo Model/StreamRec.vo Spec/C10.vo Corr/C10.vo
 Proof/C10.vio: Proof/C10.v Lib/Base.vio Lib/Bytestr.vio Gen/Streamtabs.vio Model/StreamRec.vio Spec/C10.vio Corr/C10.vio
 Proof/C10.vos Proof/C10.vok Proof/C10.required_vos: Proof/C10.v Lib/Base.vos Lib/Bytestr.vos Gen/Streamtabs.vos Model/StreamRec.vos Spec/C10.vos Corr/C10.vos
